@@ -750,9 +750,18 @@ def glue_to_sched(g, consts):
         reason = "ok"
     sig = "+".join(sorted("%d%s%s" % (m["nargs"], m["argty"][0], m["ret"][0]) for m in ms))
     raw = any(m.get("raw") for m in ms)
-    tags = ("acc" if g["accepted"] else "rej", reason, str(len(ms)), "raw" if raw else "plain", g.get("attr", "none"),
-            sig if reason == "ok" and len(ms) == 1 else "")
-    return dict(cfg={"methods": ms, "accepted": g["accepted"], "attr": g.get("attr", "none")}, steps=[], tags=tags)
+    gates = "".join(m.get("gate", "none")[1] for m in ms)  # o = none, n = on, f = off, in declaration order
+    same_sig = len(ms) == 2 and (ms[0]["nargs"], ms[0]["argty"], ms[0]["ret"]) == (ms[1]["nargs"], ms[1]["argty"], ms[1]["ret"])
+    if gates.strip("o"):
+        # shapes with a #[cfg]-gated rpc are sampled by gate pattern (and whether the two rpcs could be confused), not by attribute / name class
+        tags = ("gated", "acc" if g["accepted"] else "rej", gates if g["accepted"] else "", "samesig" if same_sig and g["accepted"] else "")
+    else:
+        tags = ("acc" if g["accepted"] else "rej", reason, str(len(ms)), "raw" if raw else "plain", g.get("attr", "none"),
+                sig if reason == "ok" and len(ms) == 1 else "")
+    sc = dict(cfg={"methods": ms, "accepted": g["accepted"], "attr": g.get("attr", "none")}, steps=[], tags=tags)
+    if tags[0] == "gated" and same_sig and g["accepted"]:
+        sc["weight"] = 5  # two rpcs that can be confused without a type error, one of them gated
+    return sc
 
 
 def _glue_runner(wd, scheds, seed, tier):
@@ -773,7 +782,7 @@ PROPS["C17"] = dict(
     models=[dict(module="MC_Glue", name="shapes", constants=dict(MaxMethods=2), quick={}, thorough={}, invariants=["Law_S2C"], coverage=False)],
     families=[dict(family="glue", trace_module="Trace_Glue", runner=_glue_runner, random_quick=0, random_thorough=0,
                    exports=[dict(module="MC_Glue", name="shapes", constants=dict(MaxMethods=2), quick={}, thorough={}, invariants=("ExportJson",),
-                                 to_sched=glue_to_sched, view="", cap_quick=160, cap_thorough=900, timeout=600)])],
+                                 to_sched=glue_to_sched, view="", cap_quick=190, cap_thorough=900, timeout=600)])],
     relevant=lambda e: True,
 )
 
